@@ -702,6 +702,9 @@ func (self *LockDB) FreeCollect() error {
 }
 
 func (self *LockDB) startCheckLoop() {
+	if verifManualClock() {
+		return
+	}
 	timeoutWaiter, expriedWaiter, removeLockManagerWaiter := make(chan struct{}, 16), make(chan struct{}, 16), make(chan struct{}, 1)
 	go self.updateCurrentTime(timeoutWaiter, expriedWaiter, removeLockManagerWaiter)
 	go self.checkTimeOut(timeoutWaiter)
@@ -1675,6 +1678,7 @@ func (self *LockDB) RemoveLongTimeOut(lock *Lock) {
 }
 
 func (self *LockDB) doTimeOut(lock *Lock, forcedExpried bool, removeWaited bool) {
+	verifPoint(VP_TIMEOUT_ENTER)
 	lockManager := lock.manager
 	lockManager.glock.Lock()
 	if lock.timeouted {
@@ -1751,6 +1755,7 @@ func (self *LockDB) doTimeOut(lock *Lock, forcedExpried bool, removeWaited bool)
 	}
 	lockManager.state.TimeoutedCount++
 	lockManager.glock.Unlock()
+	verifPoint(VP_TIMEOUT_UNLOCKED)
 
 	timeoutFlag := lockCommand.TimeoutFlag
 	if timeoutFlag&protocol.TIMEOUT_FLAG_LOG_ERROR_WHEN_TIMEOUT != 0 {
@@ -1856,6 +1861,7 @@ func (self *LockDB) RemoveLongExpried(lock *Lock, expriedTime int64) {
 }
 
 func (self *LockDB) doExpried(lock *Lock, forcedExpried bool, removeWaited bool) {
+	verifPoint(VP_EXPIRE_ENTER)
 	lockManager := lock.manager
 	lockManager.glock.Lock()
 
@@ -1926,6 +1932,7 @@ func (self *LockDB) doExpried(lock *Lock, forcedExpried bool, removeWaited bool)
 	lockManager.state.LockedCount -= uint32(lockLocked)
 	lockManager.state.ExpriedCount++
 	lockManager.glock.Unlock()
+	verifPoint(VP_EXPIRE_UNLOCKED)
 
 	expriedFlag := lockCommand.ExpriedFlag
 	if expriedFlag&protocol.EXPRIED_FLAG_LOG_ERROR_WHEN_EXPRIED != 0 {
@@ -1998,6 +2005,7 @@ func (self *LockDB) Lock(serverProtocol ServerProtocol, command *protocol.LockCo
 	}
 
 	lockManager := self.GetOrNewLockManager(command)
+	verifPoint(VP_LOCK_GOT_MANAGER)
 	if lockPriorityLevel == 0 {
 		lockManager.glock.LowPriorityLock()
 	} else {
@@ -2005,6 +2013,7 @@ func (self *LockDB) Lock(serverProtocol ServerProtocol, command *protocol.LockCo
 	}
 	if lockManager.lockKey != command.LockKey {
 		lockManager.glock.Unlock()
+		verifPoint(VP_LOCK_RETRY)
 		return self.Lock(serverProtocol, command, lockPriorityLevel)
 	}
 
@@ -2106,6 +2115,7 @@ func (self *LockDB) Lock(serverProtocol ServerProtocol, command *protocol.LockCo
 					}
 				}
 				lockManager.glock.Unlock()
+				verifPoint(VP_LOCK_UNLOCKED)
 				_ = serverProtocol.ProcessLockResultCommand(command, protocol.RESULT_LOCKED_ERROR, uint16(lockManager.locked), currentLock.locked, lockData)
 				_ = serverProtocol.FreeLockCommand(currentLockCommand)
 				return nil
@@ -2149,6 +2159,7 @@ func (self *LockDB) Lock(serverProtocol ServerProtocol, command *protocol.LockCo
 				lockManager.state.LockCount++
 				lockManager.state.LockedCount++
 				lockManager.glock.Unlock()
+				verifPoint(VP_LOCK_UNLOCKED)
 
 				_ = serverProtocol.ProcessLockResultCommand(command, protocol.RESULT_SUCCED, uint16(lockManager.locked), currentLock.locked, lockData)
 				_ = serverProtocol.FreeLockCommand(currentLockCommand)
@@ -2218,6 +2229,7 @@ func (self *LockDB) Lock(serverProtocol ServerProtocol, command *protocol.LockCo
 			lockManager.state.LockCount++
 			lockManager.state.LockedCount++
 			lockManager.glock.Unlock()
+			verifPoint(VP_LOCK_UNLOCKED)
 
 			_ = serverProtocol.ProcessLockResultCommand(command, protocol.RESULT_SUCCED, uint16(lockManager.locked), lock.locked, lockData)
 			if requireWakeup {
@@ -2243,6 +2255,7 @@ func (self *LockDB) Lock(serverProtocol ServerProtocol, command *protocol.LockCo
 		}
 		lockManager.state.LockCount++
 		lockManager.glock.Unlock()
+		verifPoint(VP_LOCK_UNLOCKED)
 
 		_ = serverProtocol.ProcessLockResultCommand(command, protocol.RESULT_SUCCED, uint16(lockManager.locked), lock.locked, lockData)
 		_ = serverProtocol.FreeLockCommand(command)
@@ -2293,6 +2306,7 @@ func (self *LockDB) Lock(serverProtocol ServerProtocol, command *protocol.LockCo
 		self.RemoveLockManager(lockManager)
 	}
 	lockManager.glock.Unlock()
+	verifPoint(VP_LOCK_UNLOCKED)
 
 	_ = serverProtocol.ProcessLockResultCommand(command, protocol.RESULT_TIMEOUT, uint16(lockManager.locked), lock.locked, lockManager.GetLockData())
 	_ = serverProtocol.FreeLockCommand(command)
@@ -2315,6 +2329,7 @@ func (self *LockDB) UnLock(serverProtocol ServerProtocol, command *protocol.Lock
 		return nil
 	}
 
+	verifPoint(VP_UNLOCK_GOT_MANAGER)
 	if lockPriorityLevel == 0 {
 		lockManager.glock.LowPriorityLock()
 	} else {
@@ -2322,6 +2337,7 @@ func (self *LockDB) UnLock(serverProtocol ServerProtocol, command *protocol.Lock
 	}
 	if lockManager.lockKey != command.LockKey {
 		lockManager.glock.Unlock()
+		verifPoint(VP_UNLOCK_RETRY)
 		return self.UnLock(serverProtocol, command, lockPriorityLevel)
 	}
 
@@ -2410,6 +2426,7 @@ func (self *LockDB) UnLock(serverProtocol ServerProtocol, command *protocol.Lock
 				lockManager.state.UnLockCount++
 				lockManager.state.LockedCount--
 				lockManager.glock.Unlock()
+				verifPoint(VP_UNLOCK_UNLOCKED)
 
 				_ = serverProtocol.ProcessLockResultCommand(command, protocol.RESULT_SUCCED, uint16(lockManager.locked), currentLock.locked, lockData)
 				_ = serverProtocol.FreeLockCommand(command)
@@ -2455,6 +2472,7 @@ func (self *LockDB) UnLock(serverProtocol ServerProtocol, command *protocol.Lock
 			if command.Flag&protocol.UNLOCK_FLAG_UNLOCK_TREE_LOCK == 0 || lockManager.locked > 1 ||
 				!self.unlockTreeLock(serverProtocol, command, lockManager, currentLockCommand, currentLock) {
 				lockManager.glock.Unlock()
+				verifPoint(VP_UNLOCK_UNLOCKED)
 				_ = serverProtocol.ProcessLockResultCommand(command, protocol.RESULT_SUCCED, uint16(lockManager.locked), currentLock.locked, lockData)
 				_ = serverProtocol.FreeLockCommand(currentLockCommand)
 				_ = serverProtocol.FreeLockCommand(command)
@@ -2503,6 +2521,7 @@ func (self *LockDB) UnLock(serverProtocol ServerProtocol, command *protocol.Lock
 			if command.Flag&protocol.UNLOCK_FLAG_UNLOCK_TREE_LOCK == 0 || lockManager.locked > 1 ||
 				!self.unlockTreeLock(serverProtocol, command, lockManager, currentLockCommand, currentLock) {
 				lockManager.glock.Unlock()
+				verifPoint(VP_UNLOCK_UNLOCKED)
 				_ = serverProtocol.ProcessLockResultCommand(command, protocol.RESULT_SUCCED, uint16(lockManager.locked), currentLock.locked, lockData)
 				_ = serverProtocol.FreeLockCommand(currentLockCommand)
 				_ = serverProtocol.FreeLockCommand(command)
@@ -2510,6 +2529,7 @@ func (self *LockDB) UnLock(serverProtocol ServerProtocol, command *protocol.Lock
 		}
 	}
 
+	verifPoint(VP_UNLOCK_PRE_WAKE)
 	self.wakeUpWaitLocks(lockManager, serverProtocol)
 	return nil
 }
@@ -2571,6 +2591,7 @@ func (self *LockDB) wakeUpWaitLocks(lockManager *LockManager, serverProtocol Ser
 			}
 
 			self.wakeUpWaitLock(lockManager, waitLock, serverProtocol)
+			verifPoint(VP_WAKE_LOOP)
 			lockManager.glock.Lock()
 			waitLock = lockManager.GetWaitLock()
 		}
@@ -2631,6 +2652,7 @@ func (self *LockDB) wakeUpWaitLock(lockManager *LockManager, waitLock *Lock, ser
 		lockManager.state.LockedCount++
 		lockManager.state.WaitCount--
 		lockManager.glock.Unlock()
+		verifPoint(VP_WAKE_UNLOCKED)
 
 		if waitLockProtocol.serverProtocol == serverProtocol {
 			_ = serverProtocol.ProcessLockResultCommand(waitLockCommand, protocol.RESULT_SUCCED, uint16(lockManager.locked), waitLock.locked, lockData)
@@ -2655,6 +2677,7 @@ func (self *LockDB) wakeUpWaitLock(lockManager *LockManager, waitLock *Lock, ser
 		_ = self.subscribeChannels[lockManager.glockIndex].Push(waitLockCommand, protocol.RESULT_EXPRIED, uint16(lockManager.locked), waitLock.locked, lockManager.GetLockData())
 	}
 	lockManager.glock.Unlock()
+	verifPoint(VP_WAKE_UNLOCKED)
 
 	if waitLockProtocol.serverProtocol == serverProtocol {
 		_ = serverProtocol.ProcessLockResultCommand(waitLockCommand, protocol.RESULT_SUCCED, uint16(lockManager.locked), waitLock.locked, lockData)
@@ -2715,6 +2738,7 @@ func (self *LockDB) cancelWaitLock(lockManager *LockManager, command *protocol.L
 	}
 	lockManager.state.UnLockCount++
 	lockManager.glock.Unlock()
+	verifPoint(VP_CANCEL_UNLOCKED)
 
 	_ = serverProtocol.ProcessLockResultCommand(command, protocol.RESULT_LOCKED_ERROR, uint16(lockManager.locked), waitLock.locked, lockManager.GetLockData())
 	_ = serverProtocol.FreeLockCommand(command)
@@ -2790,6 +2814,7 @@ func (self *LockDB) unlockTreeLock(serverProtocol ServerProtocol, command *proto
 }
 
 func (self *LockDB) DoAckLock(lock *Lock, succed bool) {
+	verifPoint(VP_ACK_ENTER)
 	lockManager := lock.manager
 	lockManager.glock.Lock()
 
@@ -2860,6 +2885,7 @@ func (self *LockDB) DoAckLock(lock *Lock, succed bool) {
 		}
 		lockProtocol, lockCommand := lock.protocol, lock.command
 		lockManager.glock.Unlock()
+		verifPoint(VP_ACK_UNLOCKED)
 
 		_ = lockProtocol.ProcessLockResultCommandLocked(lockCommand, protocol.RESULT_SUCCED, uint16(lockManager.locked), lock.locked, lockData)
 		return
@@ -2886,6 +2912,7 @@ func (self *LockDB) DoAckLock(lock *Lock, succed bool) {
 	lockManager.state.LockCount--
 	lockManager.state.LockedCount--
 	lockManager.glock.Unlock()
+	verifPoint(VP_ACK_UNLOCKED)
 
 	_ = lockProtocol.ProcessLockResultCommandLocked(lockCommand, protocol.RESULT_ERROR, uint16(lockManager.locked), lock.locked, lockManager.GetLockData())
 	_ = lockProtocol.FreeLockCommandLocked(lockCommand)
